@@ -23,7 +23,7 @@ META = {
     "modules": ["pkgcore.ebuild.atom", "pkgcore.ebuild.cpv", "pkgcore.ebuild.eapi"],
     "functions": ["atom.atom.__init__ (shadow-lowered)", "atom.atom.__str__", "cpv.CPV.__init__ (shadow-lowered)", "cpv.isvalid_pkg_name / isvalid_rev / isvalid_version_re / isvalid_cat_re", "eapi option lookups (concrete)"],
     "shims": ["shadow modules: int/ord/str/isinstance/len/hash/bool", "cpv regexes and eapi._valid_use_flag -> SymRegex", "atom.valid_slot_chars/valid_repo_chars -> SymCharSet"],
-    "bounds": {"quick": "about 45 base atoms x every position x {replace, insert} x 3 EAPIs per base (rotating over 7), one symbolic character (94 values) each", "thorough": "about 120 base atoms x all 7 EAPIs"},
+    "bounds": {"quick": "about 45 base atoms x every position x {replace, insert} x 2 EAPIs per base (rotating over 7), one symbolic character (94 values) each", "thorough": "about 120 base atoms x all 7 EAPIs"},
     "outside": ["edits of two or more characters", "atoms longer than 45 characters", "non-ASCII", "transitive USE-dep evaluation (C09)"],
     "assumptions": ["PMS 3.1.1-3.2, 8.3.1-8.3.4; repository ids (::repo) are a pkgcore extension allowed only without an EAPI"],
     "selector_only": False,
@@ -278,7 +278,7 @@ def obligations(tier, seed):
     obs = []
     bases = base_atoms(tier, rng)
     for bi, b in enumerate(bases):
-        eapis = EAPIS if tier != "quick" else [EAPIS[(bi + k * 3) % len(EAPIS)] for k in range(3)]
+        eapis = EAPIS if tier != "quick" else [EAPIS[(bi + k * 3) % len(EAPIS)] for k in range(2)]
         for e in dict.fromkeys(eapis):
             obs.append({"oid": f"{b}|eapi={e}|unedited", "base": b, "eapi": e, "edit": "none"})
             for p in range(len(b) + 1):
